@@ -161,15 +161,44 @@ Qed.
 Example ex_reachable :
   reachable KBounded 1
     (final_state (mkState 1 [] [] 0)
-       (run KBounded 1 (mkState 1 [] [] 0) [Acquire false; Acquire true; Acquire false; Cancel 1%nat; Release])).
+       (run KBounded 1 (mkState 1 [] [] 0) [Acquire TNone; Acquire TZeroDelta; Acquire TNone; Cancel 1%nat; Release])).
 Proof. eexists _, _. split; reflexivity. Qed.
 
 Example ex_release_wakes :
-  map fst (run KBounded 1 (mkState 1 [] [] 0) [Acquire false; Acquire true; Acquire false; Cancel 1%nat; Release; Drain; Fire 1%nat; Release; Release])
+  map fst (run KBounded 1 (mkState 1 [] [] 0) [Acquire TNone; Acquire TZeroDelta; Acquire TNone; Cancel 1%nat; Release; Drain; Fire 1%nat; Release; Release])
   = [EvGranted 0; EvQueued 1; EvQueued 2; EvCancel true; EvReleased (Some 2); EvNone; EvNone; EvReleased None; EvReleaseErr]%nat.
 Proof. reflexivity. Qed.
 
 Example ex_timeout_after_grant_same_iteration :
-  map (fun es => (fst es, s_timeouts (snd es))) (run KSem 0 (mkState 0 [] [] 0) [Acquire true; Drain; Release; Fire 0%nat])
+  map (fun es => (fst es, s_timeouts (snd es))) (run KSem 0 (mkState 0 [] [] 0) [Acquire TZeroDelta; Drain; Release; Fire 0%nat])
   = [(EvQueued 0%nat, 0%nat); (EvNone, 0%nat); (EvReleased (Some 0%nat), 0%nat); (EvNone, 1%nat)].
 Proof. reflexivity. Qed.
+
+(* ---------- every non-None timeout (including 0, 0.0, timedelta(0)) is a deadline ---------- *)
+Lemma any_timeout_is_a_deadline k v s t :
+  t <> TNone -> s_value s <= 0 ->
+  let w := List.length (s_futs s) in
+  let s1 := fst (step k v s (Acquire t)) in
+  snd (step k v s (Acquire t)) = EvQueued w
+  /\ nth_error (s_futs s1) w = Some (Pending, true)
+  /\ snd (step k v s1 (Fire w)) = EvTimedOut w
+  /\ (exists a, nth_error (s_futs (fst (step k v s1 (Fire w)))) w = Some (TimedOut, a)).
+Proof.
+  intros Ht Hv w s1. unfold s1, w. simpl. unfold do_acquire.
+  replace (0 <? s_value s) with false by (symmetry; apply Z.ltb_ge; auto). simpl.
+  assert (T : timed_of t = true) by (destruct t; auto; congruence). rewrite T.
+  assert (E : nth_error (s_futs s ++ [(Pending, true)]) (List.length (s_futs s)) = Some (Pending, true)).
+  { rewrite nth_error_snoc, Nat.ltb_irrefl, Nat.eqb_refl. reflexivity. }
+  split; auto. split; auto. unfold do_fire. simpl. rewrite E. simpl. split; auto.
+  assert (GC : forall s1, s_futs (garbage_collect s1) = s_futs s1).
+  { intros s2. unfold garbage_collect. destruct (gc_threshold <? S (s_timeouts s2))%nat; reflexivity. }
+  rewrite GC. simpl. exists false. apply nth_error_set_eq. rewrite app_length. simpl. lia.
+Qed.
+
+Lemma no_timeout_never_expires k v s w :
+  let s1 := fst (step k v s (Acquire TNone)) in
+  w = List.length (s_futs s) -> snd (step k v s1 (Fire w)) = EvNone.
+Proof.
+  intros s1 ->. unfold s1. simpl. unfold do_acquire. destruct (0 <? s_value s); simpl; unfold do_fire; simpl;
+    rewrite nth_error_snoc, Nat.ltb_irrefl, Nat.eqb_refl; reflexivity.
+Qed.
